@@ -238,6 +238,25 @@ def run_native(b, model, work, tag):
     return rc, lines, err
 
 
+def run_interpreted(b, model, decisions, work, tag):
+    """Replay a path of a threaded harness in symx's concrete mode (inputs + recorded schedule choices)."""
+    inp = os.path.join(work, "iin_%s.txt" % tag)
+    out = os.path.join(work, "iout_%s.json" % tag)
+    with open(inp, "w") as f:
+        for k, val in model.items():
+            f.write("%s %s\n" % (k, val))
+    cmd = [SYMX] + b.modules + ["--out", out, "--inputs", inp, "--sched", decisions or "-"]
+    try:
+        p = subprocess.run(cmd, stdout=subprocess.PIPE, stderr=subprocess.PIPE, text=True, timeout=300)
+    except subprocess.TimeoutExpired:
+        return -9, [], []
+    if not os.path.exists(out):
+        return p.returncode, [], []
+    d = json.load(open(out))
+    trace = d["samples"][0]["trace"] if d["samples"] else []
+    return p.returncode, trace, [x["id"] for x in d["violations"]] + (["crash"] if d["paths_error"] else [])
+
+
 def load_known():
     out = []
     if os.path.exists(KNOWN):
@@ -316,7 +335,10 @@ def check_property(pid, tier, harnesses, seed=0):
                 if m["reach"].get(lab, 0) == 0:
                     problems.append("%s: required reach label '%s' was hit on no path (vacuous harness?)" % (h["name"], lab))
             wit_ok = 0
+            threaded = bool(h.get("threads"))
             for lab in (h.get("reach", []) + h.get(tier, {}).get("reach", []))[:6]:
+                if threaded:
+                    break
                 if lab in m["reach_witness"]:
                     rc, lines, err = run_native(b, m["reach_witness"][lab], work, "wit")
                     if ("R " + lab) in lines and rc in (0, 1):
@@ -331,8 +353,18 @@ def check_property(pid, tier, harnesses, seed=0):
             picked = samples[::step][:nval]
             validated = 0
             for i, s in enumerate(picked):
-                rc, lines, err = run_native(b, s["model"], work, "d%d" % i)
                 want = [t for t in s["trace"]]
+                if threaded:
+                    # no native lock-step replay for interpreter threads: re-execute concretely in symx along the recorded schedule
+                    rc, lines, _v = run_interpreted(b, s["model"], s["decisions"], work, "d%d" % i)
+                    err = ""
+                    if rc in (0, 1) and lines == want:
+                        validated += 1
+                    else:
+                        problems.append("%s: concrete re-execution differs from the symbolic trace (rc=%s)\n  symx=%s\n  concrete=%s" % (h["name"], rc, want[:12], lines[:12]))
+                        break
+                    continue
+                rc, lines, err = run_native(b, s["model"], work, "d%d" % i)
                 if rc == 0 and lines == want:
                     validated += 1
                 else:
@@ -343,9 +375,16 @@ def check_property(pid, tier, harnesses, seed=0):
             # ---- counterexamples: replay before reporting
             confirmed = 0
             for v in m["violations"]:
-                rc, lines, err = run_native(b, v["model"], work, "cex")
-                repro = False
-                if v["id"] == "crash":
+                if threaded:
+                    rc, lines, vids = run_interpreted(b, v["model"], v["decisions"], work, "cex")
+                    err = ""
+                    repro = v["id"] in vids
+                else:
+                    rc, lines, err = run_native(b, v["model"], work, "cex")
+                    repro = None
+                if repro is not None:
+                    pass
+                elif v["id"] == "crash":
                     repro = rc == 5 or rc < 0 or any(l.startswith("CRASH") for l in lines)
                 else:
                     repro = ("F " + v["id"]) in lines
@@ -363,7 +402,8 @@ def check_property(pid, tier, harnesses, seed=0):
                 os.makedirs(os.path.join(REPLAYS, pid), exist_ok=True)
                 rp = os.path.join(REPLAYS, pid, "%s-%s-%d.json" % (h["name"], re.sub(r"[^A-Za-z0-9_.]", "_", v["id"]), confirmed))
                 json.dump(dict(property=pid, harness=h["name"], tier=tier, assert_id=v["id"], kind=v["kind"], where=v["where"], model=v["model"],
-                               defs=b.defs, native_trace=lines[-40:],
+                               defs=b.defs, native_trace=lines[-40:], decisions=v.get("decisions", ""),
+                               replay_kind="interpreted (symx concrete mode along the recorded schedule)" if threaded else "native",
                                how_to_replay="bin/check %s --replay %s" % (pid, rp)), open(rp, "w"), indent=1)
                 violations_out.append((v["id"], rp))
                 if confirmed >= 3:
